@@ -30,7 +30,7 @@ func implPass(raw json.RawMessage) (any, error) {
 	return world.Extract(res), nil
 }
 
-var passOpts = world.GenOpts{PreferOnSpreadKey: 0.35, InterPod: 0.75, NodeAffinity: 0.15, Existing: 0.6, Limits: 0.0, MaxPods: 6}
+var passOpts = world.GenOpts{PreferOnSpreadKey: 0.35, PodEventsFirst: 0.3, InterPod: 0.75, NodeAffinity: 0.15, Existing: 0.6, Limits: 0.0, MaxPods: 6}
 
 func constraintLabels(s *world.Scenario) []string {
 	var l []string
